@@ -244,6 +244,77 @@ theorem defined_mono (y : Syms) (l : List Stmt) (n : Nat) (h : y.defined n = tru
     · exact Or.inl (Or.inl h)
     · exact Or.inr (Or.inl h)
 
+/-! ### host-supplied globals (builtins, default modules) -/
+
+def implObsFrom (host : List Nat) (h : List Piece) : Obs :=
+  let r := Repl.run (Repl.init host) h
+  ⟨r.2, r.1.vm.trace, r.1.comp.syms⟩
+
+def specObsFrom (host : List Nat) (h : List Piece) : Obs :=
+  let r := SpecSt.run (SpecSt.init host) h
+  ⟨r.2, r.1.trace, r.1.syms⟩
+
+/-- **C18_partial with host-supplied globals.**  For EVERY list `host` of names the embedding
+    program supplies before the first piece (builtins, default modules — variables of the root
+    symbol table) and EVERY history of pieces inside the guard evaluated with those names defined
+    (`guardHost`, the same four conditions G1–G4 as `C18_partial`), the REPL machine started with
+    the host's names yields exactly the Spec's per-piece outcomes, trace of executed statements
+    and definitions.  In particular a piece that REBINDS a host-supplied name (a statement whose
+    `asg` contains it) is accepted, is part of the trace from then on, and every later piece runs
+    against that trace — the rebinding is not forgotten.  `C18_partial` is the case `host = []`. -/
+theorem C18_partial_host (host : List Nat) (h : List Piece) (hg : guardHost host h = true) :
+    implObsFrom host h = specObsFrom host h := by
+  have inv0 : Inv (Repl.init host) (SpecSt.init host) (GSt.init host) :=
+    ⟨rfl, rfl, rfl, rfl, rfl, rfl, rfl, rfl⟩
+  obtain ⟨h1, inv⟩ := run_inv h _ _ _ inv0 hg
+  simp only [implObsFrom, specObsFrom, h1, inv.trace, inv.syms]
+
+/-- `C18_partial` is `C18_partial_host` without host-supplied names. -/
+theorem C18_partial_host_nil (h : List Piece) :
+    guardHost [] h = guard h ∧ implObsFrom [] h = implObs h ∧ specObsFrom [] h = specObs h :=
+  ⟨rfl, rfl, rfl⟩
+
+/-- **Host-supplied names stay defined (Spec).**  For every host list, every history (no guard)
+    and every host-supplied name: the name still resolves after the history — no piece, accepted,
+    rejected or failing, takes a host-supplied name away from later pieces. -/
+theorem host_stays_defined_spec (host : List Nat) (h : List Piece) (n : Nat) (hn : n ∈ host) :
+    (SpecSt.run (SpecSt.init host) h).1.syms.defined n = true := by
+  apply spec_run_defined_mono
+  simp [SpecSt.init, hostSyms, Syms.defined, hn]
+
+/-- **Host-supplied names stay defined (Impl).**  The same for the compiler of the REPL machine
+    as it is, for every history (no guard): `Compile` only ever adds to the symbol table. -/
+theorem host_stays_defined_impl (host : List Nat) (h : List Piece) (n : Nat) (hn : n ∈ host) :
+    (Repl.run (Repl.init host) h).1.comp.syms.defined n = true := by
+  apply repl_run_defined_mono
+  simp [Repl.init, hostSyms, Syms.defined, hn]
+
+/-- `xs := [3, 1, 2]` / `len = func(v) { return 42 }` / `n := len(xs)` / `n` with `len` (name 1)
+    supplied by the host -/
+def w_host_rebind : List Piece :=
+  [.stmts [{ id := 1, vdecl := [2] }],
+   .stmts [{ id := 2, uses := [1], asg := [1] }],
+   .stmts [{ id := 3, uses := [1, 2], vdecl := [3] }],
+   .stmts [{ id := 4, isExpr := true, leaves := true, uses := [3] }]]
+
+example : guardHost [1] w_host_rebind = true := by decide
+example : implObsFrom [1] w_host_rebind = specObsFrom [1] w_host_rebind := C18_partial_host _ _ (by decide)
+/-- the rebinding (statement 2) is in the trace every later piece runs against -/
+example : (implObsFrom [1] w_host_rebind).trace.map (·.1) = [1, 2, 3, 4] ∧
+    (implObsFrom [1] w_host_rebind).outcomes = [.ok 0, .ok 0, .ok 0, .ok 4] := by decide
+/-- the host list matters: without it the pieces that mention `len` are rejected as undefined -/
+example : (implObsFrom [] w_host_rebind).outcomes = [.ok 0, .compileRejected, .compileRejected, .compileRejected] := by
+  decide
+/-- a host-supplied name is a variable, not a constant: contrast with `const k = 7` / `k = 2` -/
+example : (implObsFrom [] [.stmts [{ id := 1, cdecl := [1] }], .stmts [{ id := 2, uses := [1], asg := [1] }]]).outcomes
+    = [.ok 0, .compileRejected] := by decide
+/-- a function loaded by an earlier run that reads a host-supplied name rebound later sees the
+    stale copy (finding C18-function-globals-snapshot): outside the guard, marked in the trace -/
+example : guardHost [1]
+    [.stmts [{ id := 1, leaves := true, uses := [1], cdecl := [2], fdefs := [2] }],
+     .stmts [{ id := 2, uses := [1], asg := [1] }],
+     .stmts [{ id := 3, isExpr := true, leaves := true, uses := [2], calls := [2] }]] = false := by decide
+
 /-! ### the unchanged code violates the property: five witnesses -/
 
 /-- `print("a")` / `print("x"); undefined_name` / `print("b")` -/
